@@ -330,19 +330,23 @@ def fetchSlot (out : Nat → Val) (own : Val) : List Nat → Val
 def fetchArgs (nodes : Nat → Node) (out : Nat → Val) (i : Nat) : List Val :=
   ((nodes i).slots).map (fun sl => fetchSlot out sl.own sl.conns)
 
-/-- `Node.emitting_channels` / `If.emitting_channels` -/
+/-- `Node.emitting_channels` / `If.emitting_channels` (commit 5622c2f: a failed `If` decides nothing — the
+truth value it holds is the one of an earlier run) -/
 def emitting (nodes : Nat → Node) (st : Store) (i : Nat) : List Sig :=
   let base := if st.failed i then [sigFailed i] else [sigRan i]
   match (nodes i).kind with
   | .ifk =>
-    match st.out i with
-    | .nd => base
-    | v => base ++ [if v.truthy then sigTrue i else sigFalse i]
+    if st.failed i then base
+    else
+      match st.out i with
+      | .nd => base
+      | v => base ++ [if v.truthy then sigTrue i else sigFalse i]
   | _ => base
 
-/-- `Node.run()` of a local child inside a running parent (tree with the cache fixes 0699958):
-fetch → cache hit (only where a run would be admitted: not failed, all inputs data)? →
-readiness gate → cache write → call → outputs / failed (+ cache dropped) → finished → emit -/
+/-- `Node.run()` of a local child inside a running parent (tree with the cache commits 0699958, b54ba0f):
+fetch → cache hit (only where a run would be admitted: not failed, all inputs data)? → readiness gate →
+cache forgotten (`_cached_inputs = None`: the outputs are in flux) → call → outputs, and only now the cache
+records the inputs the run was admitted with | failed → finished → emit -/
 def runNode (nodes : Nat → Node) (st : Store) (i : Nat) : Store × Bool × List Sig :=
   let nd := nodes i
   let args := fetchArgs nodes st.out i
@@ -357,17 +361,17 @@ def runNode (nodes : Nat → Node) (st : Store) (i : Nat) : Store × Bool × Lis
   else if !ready then
     (st, true, [])                                              -- ReadinessError, nothing changes
   else
-    let st0 := if nd.useCache then { st with cached := updF st.cached i (some args) } else st
-    let k := st0.attempts i + 1
-    let st1 := { st0 with attempts := updF st0.attempts i k, callLog := st0.callLog ++ [(i, args)],
-                          execLog := st0.execLog ++ [i] }
+    let k := st.attempts i + 1
+    let st1 := { st with cached := updF st.cached i none, attempts := updF st.attempts i k,
+                         callLog := st.callLog ++ [(i, args)], execLog := st.execLog ++ [i] }
     match (if nd.failAt.contains k then none else eval nd.kind args) with
     | some v =>
-      let st2 := { st1 with out := updF st1.out i v, doneLog := st1.doneLog ++ [i] }
+      let st2 := { st1 with out := updF st1.out i v,
+                            cached := if nd.useCache then updF st1.cached i (some args) else st1.cached,
+                            doneLog := st1.doneLog ++ [i] }
       (st2, false, emitting nodes st2 i)
     | none =>
-      let st2 := { st1 with failed := updF st1.failed i true, cached := updF st1.cached i none,
-                            doneLog := st1.doneLog ++ [i] }
+      let st2 := { st1 with failed := updF st1.failed i true, doneLog := st1.doneLog ++ [i] }
       (st2, true, emitting nodes st2 i)
 
 def nodeSem (nodes : Nat → Node) : Sem Store := { react := runNode nodes }
